@@ -156,13 +156,15 @@ def worker(ck: Check, job):
         good = 'ok' in r and [o['text'] for o in r['ok']['batch']] == [str(n), '0']
         if good:
             occs = r['ok']['batch']
-            good = occs[0]['end'] == len(toks) - 2 and occs[1]['start'] == len(toks) - 1
+            good = occs[0]['start'] == 0 and occs[0]['end'] == len(toks) - 2 and occs[1]['start'] == len(toks) - 1
         if good:
             return {'key': {}, 'what': '', 'reproduced': False, 'replay': rep}
-        return {'key': {'lang': code, 'kind': 'trailing-zero'}, 'reproduced': True, 'replay': rep,
+        cw = culprit_word(nat, code, concrete_phrase(card, m), skip=(L.conj,))
+        return {'key': {'lang': code, 'word': cw, 'kind': 'trailing-zero'}, 'reproduced': True, 'replay': rep, 'culprit': cw,
                 'what': '%s: %r gives %s, expected %s' % (code, ''.join(t.text for t in toks),
                                                          [o['text'] for o in r.get('ok', {}).get('batch', [])], [str(n), '0'])}
-    ck.prove_none(name + ':trailing-zero', assm3, bad3, on_cex_3, lambda m, c: None)
+    ck.prove_none(name + ':trailing-zero', assm3, bad3, on_cex_3,
+                  lambda m, cex: block_word([slots3], cex['culprit']) if cex.get('culprit') else None)
     ck.cover(name + ':trailing-zero:ok', assm3 + [z3.Or(*ok3)] if ok3 else [False],
              lambda m: {'lang': code, 'tokens': [t.text for t in concrete_tokens(tslots3, m)]})
     # lone zero
